@@ -638,23 +638,7 @@ impl ToplevelDefinition {
                 tag_class: t.tag_class,
                 id: t.id,
             });
-            match &mut ty.ty {
-                ASN1Type::Sequence(s) | ASN1Type::Set(s) => s.members.iter_mut().for_each(|m| {
-                    m.tag = m.tag.as_ref().map(|t| AsnTag {
-                        environment: env + &t.environment,
-                        tag_class: t.tag_class,
-                        id: t.id,
-                    });
-                }),
-                ASN1Type::Choice(c) => c.options.iter_mut().for_each(|o| {
-                    o.tag = o.tag.as_ref().map(|t| AsnTag {
-                        environment: env + &t.environment,
-                        tag_class: t.tag_class,
-                        id: t.id,
-                    });
-                }),
-                _ => (),
-            }
+            ty.ty.apply_tagging_environment(env);
         }
     }
 
@@ -830,6 +814,36 @@ pub enum ASN1Type {
     ObjectClassField(ObjectClassFieldType),
     EmbeddedPdv,
     External,
+}
+
+impl ASN1Type {
+    /// Combines the tagging environment of the module with the tags of all components,
+    /// alternatives and element types of `self`, at every nesting depth
+    /// (anonymous nested types belong to the same module as their parent).
+    pub(crate) fn apply_tagging_environment(&mut self, env: &TaggingEnvironment) {
+        let resolve = |tag: &Option<AsnTag>| {
+            tag.as_ref().map(|t| AsnTag {
+                environment: env + &t.environment,
+                tag_class: t.tag_class,
+                id: t.id,
+            })
+        };
+        match self {
+            ASN1Type::Sequence(s) | ASN1Type::Set(s) => s.members.iter_mut().for_each(|m| {
+                m.tag = resolve(&m.tag);
+                m.ty.apply_tagging_environment(env);
+            }),
+            ASN1Type::Choice(c) => c.options.iter_mut().for_each(|o| {
+                o.tag = resolve(&o.tag);
+                o.ty.apply_tagging_environment(env);
+            }),
+            ASN1Type::SequenceOf(s) | ASN1Type::SetOf(s) => {
+                s.element_tag = resolve(&s.element_tag);
+                s.element_type.apply_tagging_environment(env);
+            }
+            _ => (),
+        }
+    }
 }
 
 impl ASN1Type {
